@@ -76,6 +76,9 @@ theorem zPartitionT_eq (stores : List (Nat × Nat) → List (Nat × Nat))
   rw [hsome]
   simp only
   rw [zWriteIdsT_eq stores hst n k perm p0 (hperm.nodup_iff.2 List.nodup_range)]
+  -- `ZCurve.partition` may write through the array-backed `writeIdsA` (same function:
+  -- `ZCurve.writeIdsA_toList`); with the list version the rewrite above already closes the goal
+  all_goals (first | rfl | simp only [ZCurve.writeIdsA_toList])
 
 /-! ## HilbertCurve -/
 
